@@ -790,13 +790,12 @@ impl Mp4TrackWriter {
 
             stss.entries.push(self.sample_id);
         } else {
-            if !is_sync {
-                return;
-            }
-
-            // Create the stts box if not found and push the entry.
+            // Create the stss box if not found. It is also needed when the sample is not a
+            // sync sample: a track without stss means that every sample is a sync sample.
             let mut stss = StssBox::default();
-            stss.entries.push(self.sample_id);
+            if is_sync {
+                stss.entries.push(self.sample_id);
+            }
             self.trak.mdia.minf.stbl.stss = Some(stss);
         };
     }
